@@ -11,6 +11,10 @@ separate checks (one case each, so that one root cause cannot hide another):
                   absdelta=None) did not stop at a point with g.H.g < 0 where such a trial length lowers E.
   trust           jit(`_trust_ncg`): E(x_result) <= E(x_start), finite result.
   agree           eager and static agree on x (1e-8 relative) and on the class of `status` (<0, 0, >0).
+  sched-*         halving family a1 x + h1/2 x^2 + q/4 x^4 + a2 y + h2/2 y^2 tuned so that EXACTLY trial k of the
+                  documented schedule (k=0..5: 2^-k of the CG step, k=6..8: 2^-(k-6) of the reset step, or none)
+                  is the first that does not raise E; one iteration of eager / compiled must land on the point
+                  the reference re-implementation of that iteration gives, and the two must agree.
 
 Energies, gradients and Hessians of the oracle are the hand-written numpy formulas of
 vf/ref/c17_objectives.py, never the library's or JAX's.
@@ -44,6 +48,7 @@ MARGIN = 1e-9
 XTOL = 1e-5          # library default, scaled by size(x0) inside the library
 
 CHECKS = ["eager", "static", "trust", "agree"]
+SCHED_CHECKS = ["sched-eager", "sched-static", "sched-agree"]
 
 
 def cases(tier, seed):
@@ -75,6 +80,12 @@ def cases(tier, seed):
     # cases reuse the same compiled function inside a worker
     out.sort(key=lambda c: (c["api"] != "explicit", c["d"], c["absdelta"] is not None, c["absdelta"] or 0.,
                             O.NAMES.index(c["obj"]), CHECKS.index(c["check"]), c["maxiter"]))
+    # halving-schedule family: for every trial index k = 0..8 of the documented schedule (and "none") a
+    # function on which exactly trial k is the first that does not raise the energy; one iteration
+    for check in SCHED_CHECKS:
+        for fam, k, par in O.halving_params(seed):
+            out.append(dict(check=check, obj="halving", family=fam, designed_trial=k, d=2, seed=seed,
+                            start=[0., 0.], maxiter=1, absdelta=None, api="fun", params=par))
     return out
 
 
@@ -375,8 +386,90 @@ def check_agree(case):
               stats=dict(max_x_deviation_e12=float(dx)*1e12))
 
 
+# ------------------------------------------------------------------ halving schedule (every trial index)
+def _sched_variant(kind, par):
+    """One iteration of `_newton_cg` / jit(`_static_newton_cg`) on the halving family from the origin; the
+    parameters are run-time arguments of ONE compiled function."""
+    E = _env()
+    jax, jnp, opt = E["jax"], E["jnp"], E["opt"]
+    if "sched" not in _JIT:
+        vg = jax.jit(jax.value_and_grad(O.halving_jax))
+        hp = jax.jit(lambda x, t, p: jax.jvp(lambda z: jax.grad(O.halving_jax)(z, p), (x,), (t,))[1])
+        st = jax.jit(lambda x0, p: opt._static_newton_cg(lambda v: O.halving_jax(v, p), x0, maxiter=1))
+        _JIT["sched"] = (vg, hp, st)
+    vg, hp, st = _JIT["sched"]
+    p = jnp.asarray(par, dtype=float)
+    x0 = _vec([0., 0.])
+    log = []
+    try:
+        if kind == "eager":
+            def logged(v):
+                r = vg(v, p)
+                log.append((_flat(v), float(r[0])))
+                return r
+            res = opt._newton_cg(lambda v: O.halving_jax(v, p), x0, maxiter=1, fun_and_grad=logged,
+                                 hessp=lambda x, t: hp(x, t, p))
+        else:
+            res = st(x0, p)
+            jax.block_until_ready(res.x)
+    except Exception as e:
+        return dict(exc="%s: %s" % (type(e).__name__, str(e)[:80]))
+    return dict(x=_flat(res.x), status=int(res.status), nit=int(res.nit), ntrials=len(log) - 1)
+
+
+def check_sched(case):
+    ref = O.halving_reference(case["params"])
+    if ref["ambiguous"]:
+        return skip("a trial energy is within round-off of the start energy")
+    k = ref["k"]
+    klab = "none" if k is None else str(k)
+    fam = case["family"]
+    exp_x = ref["x"]
+    exp_cls = "neg" if k is None else "pos"       # maxiter=1: iteration limit (status 1) after a step, -1 after an abort
+    kinds = ["eager", "static"] if case["check"] == "sched-agree" else [case["check"][6:]]
+    res = {}
+    for kind in kinds:
+        r = _sched_variant(kind, case["params"])
+        if "exc" in r:
+            return bad("%s raised %s on the halving family (first successful trial %s)" % (kind, r["exc"], klab),
+                       finding_key="halving|%s|first-success-trial=%s|exception" % (kind, klab))
+        res[kind] = r
+    tol = X_TOL*max(1., np.abs(exp_x).max())
+    if case["check"] == "sched-agree":
+        a, b = res["eager"], res["static"]
+        if _cls(a["status"]) != _cls(b["status"]) or np.abs(a["x"] - b["x"]).max() > tol:
+            return bad("eager and compiled Newton-CG disagree after one iteration whose first successful trial step is "
+                       "number %s of the halving schedule (%s family): eager x=%s status=%d, compiled x=%s status=%d; "
+                       "reference x=%s" % (klab, fam, a["x"].tolist(), a["status"], b["x"].tolist(), b["status"], exp_x.tolist()),
+                       finding_key="halving|agree|first-success-trial=%s" % klab)
+        return ok(nontrivial=True, outcome="sched-agree|%s|first-success=%s" % (fam, klab))
+    kind = kinds[0]
+    r = res[kind]
+    if np.abs(r["x"] - exp_x).max() > tol or _cls(r["status"]) != exp_cls:
+        if not np.any(r["x"] != 0.) and k is not None:
+            sym = "aborted-at-start"
+        elif k is None:
+            sym = "stepped-although-no-trial-lowers"
+        else:
+            sym = "wrong-point"
+        return bad("%s Newton-CG, one iteration on the %s halving family: trial step number %s (%s) is the first that does "
+                   "not raise the energy, expected x=%s status class %s; got x=%s status=%d%s"
+                   % (kind, fam, klab, "none lowers" if k is None else
+                      ("2^-%d of the CG step" % k if k < 6 else "2^-%d of the reset step g.g/|g.H.g|*g" % (k - 6)),
+                      exp_x.tolist(), exp_cls, r["x"].tolist(), r["status"],
+                      (", %d trial points evaluated" % r["ntrials"]) if kind == "eager" else ""),
+                   finding_key="halving|%s|first-success-trial=%s|%s" % (kind, klab, sym),
+                   detail=dict(trial_energies_minus_start=[e - O.halving_f([0., 0.], case["params"]) for e in ref["energies"]]))
+    if kind == "eager" and r["ntrials"] != (9 if k is None else k + 1):
+        return bad("eager evaluated %d trial points, the schedule prescribes %d" % (r["ntrials"], 9 if k is None else k + 1),
+                   finding_key="halving|eager|first-success-trial=%s|trial-count" % klab)
+    return ok(nontrivial=True, outcome="%s|%s|first-success=%s" % (case["check"], fam, klab))
+
+
 def run(case):
     _env()
+    if case["check"] in SCHED_CHECKS:
+        return check_sched(case)
     if case["check"] in ("eager", "static"):
         return check_ncg(case["check"], case)
     if case["check"] == "trust":
@@ -403,4 +496,16 @@ def finish(run):
     if worst_fd > 1e-5 or worst_tr > 1e-13:
         run.violations.append((dict(check="selfcheck"), bad("reference objectives inconsistent (fd %g, jax-vs-numpy %g)"
                                                              % (worst_fd, worst_tr), finding_key="harness|reference")))
-    return dict(reference_fd_deviation=worst_fd, jax_vs_numpy_value_deviation=worst_tr, start_curvature_classes_d2=ncurv)
+    seen = {}
+    for o in run.outcomes:
+        if o.startswith("sched-"):
+            chk, fam, fs = o.split("|")
+            seen.setdefault(chk, set()).add(fs.split("=")[1])
+    want = set(str(k) for k in range(9)) | {"none"}
+    sched_viol = any(c.get("obj") == "halving" for c, _ in run.violations)
+    if "filtered_by" not in run.extra and not sched_viol:
+        for chk in SCHED_CHECKS:
+            if seen.get(chk, set()) != want:
+                run.violations.append((dict(check=chk), bad("halving family does not cover every trial index: %s" % sorted(seen.get(chk, [])),
+                                                            finding_key="harness|halving-coverage")))
+    return dict(halving_first_success_indices_seen={k: sorted(v) for k, v in seen.items()}, reference_fd_deviation=worst_fd, jax_vs_numpy_value_deviation=worst_tr, start_curvature_classes_d2=ncurv)
